@@ -231,6 +231,19 @@ SkinnyTDec(cw, key, tweak, blk) ==
     BytesOf(cw, DecCells(cw, CellsOf(cw, blk),
                          SkAdds(cw, tk, TRUE, FullRounds(cw, Len(tk) \div BlockBytes(cw)))))
 
+(* The schedule is XOR-linear in TK1: contribution of a TK1 value alone (no   *)
+(* constants) to the first r round additions, and XOR of two addition lists.  *)
+(* Used to model the one implementation-defined corner in which the code's    *)
+(* incremental tweak update is applied to a schedule that was not keyed as a  *)
+(* tweakable one (see SkinnyTrace, key state "plain").                        *)
+Tk1Contrib(cw, t, r) ==
+    LET raw(tk) == LET x == tk[1] IN << x[1], x[2], x[3], x[4], x[5], x[6], x[7], x[8],
+                                       0, 0, 0, 0, 0, 0, 0, 0 >>
+        step(acc, i) == << Append(acc[1], raw(acc[2])), TkNext(cw, acc[2]) >>
+    IN  FoldLeft(step, << <<>>, <<CellsOf(cw, t), Zero16, Zero16, 0>> >>, [i \in 1..r |-> i])[1]
+
+XorAdds(a, b) == SubSeq([i \in 1..Len(a) |-> Xor16(a[i], b[i])], 1, Len(a))
+
 (* Image of one round addition as the bytes of rows 0 and 1 (what a         *)
 (* precomputed key schedule would store; c2 is not part of it).             *)
 AddImage(cw, a) ==
